@@ -22,7 +22,10 @@ CLIENTS = [("base_client", "BaseClient"), ("async_base_client", "AsyncBaseClient
 
 
 def _uploads():
-    return [BM.Upload(filename=f"f{i}.txt", content=io.BytesIO(f"content-{i}".encode()), content_type="text/plain") for i in range(3)]
+    """three distinct Upload objects; the last two share file name and content type (distinct uploads are distinct OBJECTS,
+    whatever their attributes say)"""
+    return [BM.Upload(filename="f0.txt" if i == 0 else "same.txt", content=io.BytesIO(f"content-{i}".encode()), content_type="text/plain")
+            for i in range(3)]
 
 
 def positions(tree, path="variables"):
@@ -238,8 +241,8 @@ def _check_wire(tree, seen, client):
         bad.append("each-distinct-upload-sent-once")
         return bad
     for key, paths in fmap.items():
-        owners = [u for u in distinct if u.filename == file_parts[key]["filename"]]
-        if len(owners) != 1 or file_parts[key]["payload"] != owners[0].content.getvalue():
+        owners = [u for u in distinct if u.filename == file_parts[key]["filename"] and u.content.getvalue() == file_parts[key]["payload"]]
+        if len(owners) != 1:
             bad.append("file-part-is-the-upload")
             break
         if sorted(paths) != sorted(p for p, u in pos if u is owners[0]):
